@@ -3,15 +3,22 @@ import json, os, re, subprocess, shutil, sys, time
 from vlib import *
 
 
-def extract_replay(out, path, mode="w"):
+def extract_replay(src, path, mode="w"):
+    """REPLAY lines of a TLC output file -> ndjson (duplicates dropped; digests, not lines, are remembered)"""
+    import hashlib
     n = 0
     seen = set()
-    with open(path, mode) as f:
-        for m in re.finditer(r'^<<"REPLAY", "(.*)">>$', out, re.M):
-            line = m.group(1).replace('\\"', '"').replace('\\\\', '\\')
-            if line in seen:
+    pre, post = '<<"REPLAY", "', '">>'
+    with open(path, mode) as f, open(src, errors="replace") as fin:
+        for raw in fin:
+            raw = raw.rstrip("\n")
+            if not (raw.startswith(pre) and raw.endswith(post)):
                 continue
-            seen.add(line)
+            line = raw[len(pre):-len(post)].replace('\\"', '"').replace('\\\\', '\\')
+            h = hashlib.blake2b(line.encode(), digest_size=12).digest()
+            if h in seen:
+                continue
+            seen.add(h)
             f.write(line + "\n")
             n += 1
     return n
@@ -27,9 +34,11 @@ def spec_to_impl(res, prop, module, cfgs, replay_cmd, wd, label, workers=8, time
         sim = None
         if isinstance(cfg, tuple):
             cfg, sim = cfg
+        raw = os.path.join(wd, f"{label}.tlc.out")
         r = run_mc(module, cfg, workers=1 if sim else workers, timeout=timeout, coverage=False, name=f"{prop}_{cfg}",
-                   simulate=sim[0] if sim else None, depth=sim[1] if sim else None)
-        n = extract_replay(r["out"], beh, "a")
+                   simulate=sim[0] if sim else None, depth=sim[1] if sim else None, to_file=raw)
+        n = extract_replay(raw, beh, "a")
+        os.remove(raw)
         states += r.get("states", 0)
         trans += r.get("transitions", 0)
         per_cfg[cfg] = {"states": r.get("states", 0), "behaviours": n, "wall_s": round(r["wall_s"], 1)}
